@@ -2,6 +2,7 @@
 """Print the prompt for an independent 'seeded change' sub-agent for one property (property text only)."""
 import json, sys
 pid = sys.argv[1]; n = sys.argv[2] if len(sys.argv) > 2 else "1"
+avoid = sys.argv[3] if len(sys.argv) > 3 else ""
 p = next(json.loads(l) for l in open('/verif/properties.jsonl') if json.loads(l)['id'] == pid)
 wt = "/tmp/seed-%s-%s" % (pid.lower(), n)
 out = "/tmp/seed-%s-%s-out" % (pid.lower(), n)
@@ -17,7 +18,7 @@ Here is a semantic property that the code base is supposed to satisfy:
   code it is anchored in: {', '.join(p['anchors']['files'])}
   mechanisms meant to make it hold: {'; '.join(m['name'] + ' (' + m.get('where','') + ')' for m in p['anchors']['mechanism'])}
 
-Task: make ONE realistic change to the repository's source (not to its tests) that BREAKS this property while (a) the workspace still compiles, and (b) the repository's existing tests still pass. The change must need something specific to manifest - a particular interleaving, a crash or fault at a particular point, a multi-step sequence of operations, an unusual input, or two cooperating sites that each look fine alone - NOT something ordinary use or the existing tests would expose at once. Think like a plausible regression: an optimisation that drops a re-arm, a cursor advanced a line too early, a flag cleared in the wrong branch, publishing before persisting, a boundary condition flipped, a cache key made too coarse. Keep it small (a few lines).
+Task: make ONE realistic change to the repository's source (not to its tests) that BREAKS this property while (a) the workspace still compiles, and (b) the repository's existing tests still pass. The change must need something specific to manifest - a particular interleaving, a crash or fault at a particular point, a multi-step sequence of operations, an unusual input, or two cooperating sites that each look fine alone - NOT something ordinary use or the existing tests would expose at once. Think like a plausible regression: an optimisation that drops a re-arm, a cursor advanced a line too early, a flag cleared in the wrong branch, publishing before persisting, a boundary condition flipped, a cache key made too coarse. Keep it small (a few lines).""" + ((" Other people have already tried the following ideas - pick a DIFFERENT mechanism and a different code site: " + avoid) if avoid else "") + f"""
 
 Then write a DEMONSTRATION: a test or small program (put it in {out}/demo/, e.g. a new integration test file or a tiny crate with path dependencies on the worktree's crates; it may also be a unit test file added to the worktree, given as a second patch) that FAILS with your change and PASSES without it, deterministically. Build with `cargo ... --offline` and set `CARGO_TARGET_DIR={wt}/target` (no network; all dependencies are already in the local cargo cache; copy {wt}/Cargo.lock next to any new stand-alone crate's Cargo.toml before building it).
 
